@@ -3,6 +3,7 @@ package main
 
 import (
 	"fmt"
+	"os"
 	"math/rand"
 	"sort"
 	"strings"
@@ -166,6 +167,10 @@ func (e *explorer) pop() *workItem {
 	for {
 		if e.done {
 			return nil
+		}
+		if e.cfg.MaxPaths > 0 && e.paths+e.busy >= e.cfg.MaxPaths && len(e.stack) > 0 {
+			e.inconclusive[fmt.Sprintf("path cap of %d reached: exploration truncated", e.cfg.MaxPaths)] = len(e.stack)
+			e.stack = nil
 		}
 		if n := len(e.stack); n > 0 {
 			it := e.stack[n-1]
@@ -442,6 +447,9 @@ func (e *explorer) merge(p *path, w *worker, outcome string, steps int64) {
 	e.mu.Lock()
 	defer e.mu.Unlock()
 	e.paths++
+	if progress && e.paths%500 == 0 {
+		fmt.Fprintf(os.Stderr, "[progress] paths=%d stack=%d obligations=%d violations=%d inconclusive=%d\n", e.paths, len(e.stack), e.obligations, len(e.violations), len(e.inconclusive))
+	}
 	e.states += len(p.decisions) - len(p.item.prefix) + 1
 	e.transitions += len(p.decisions) - len(p.item.prefix) + 1
 	if len(p.decisions) > e.maxDecisions {
@@ -523,3 +531,5 @@ func sortedKeys(m map[string]int) []string {
 	sort.Strings(ks)
 	return ks
 }
+
+var progress = os.Getenv("GOSYMEX_PROGRESS") != ""
